@@ -33,6 +33,19 @@ theorem no_leak (p : Prog Act) (required : List Nat)
     ((exec Fresh.sem p o s).1 ≠ .exc → ∀ a, a ∈ required → ((exec Fresh.sem p o s).2.1.attrs a).2 = false) :=
   Fresh.nothing_stale p required h o s hleak
 
+/-- **refit_is_fresh_fit** (two-run form of the same analysis): with written values and attribute-dependent
+branches computed from this call's inputs AND from the attribute values read, running an accepted `fit`
+skeleton with the same inputs from two arbitrary attribute states — `s` = whatever earlier fits and
+observers left, `t` = the state of a fresh clone — ends the same way and, unless it raises, yields the
+same value for every attribute an observer can read. -/
+theorem refit_is_fresh_fit (p : Prog Act) (required : List Nat)
+    (h : exitsGood (Fresh.goodAt required) (analyze Fresh.dom p []) = true)
+    (o : Oracle) (s t : NI.St) :
+    (exec NI.sem p o t).1 = (exec NI.sem p o s).1 ∧ (exec NI.sem p o t).2.2 = (exec NI.sem p o s).2.2 ∧
+    ((exec NI.sem p o s).1 ≠ .exc →
+      ∀ a, a ∈ required → (exec NI.sem p o s).2.1.attrs a = (exec NI.sem p o t).2.1.attrs a) :=
+  NI.refit_equals_fresh_fit p required h o s t
+
 /-- attributes a program can write or delete (syntactically) -/
 def writes : Prog Act → List Nat
   | .atom (.wattr a _) => [a]
@@ -145,6 +158,14 @@ theorem refit_sees_nothing_stale (f : FitCase) (hf : f ∈ cases) (o : Oracle) (
       ∀ a, a ∈ f.required → ((exec Fresh.sem f.prog o s).2.1.attrs a).2 = false) :=
   no_leak f.prog f.required (List.all_eq_true.mp all_fits_fresh f hf) o s hleak
 
+/-- every fit of the current source, every valuation: refit and fresh fit agree on what observers can see -/
+theorem every_refit_is_a_fresh_fit (f : FitCase) (hf : f ∈ cases) (o : Oracle) (s t : NI.St) :
+    (exec NI.sem f.prog o t).1 = (exec NI.sem f.prog o s).1 ∧
+    ((exec NI.sem f.prog o s).1 ≠ .exc →
+      ∀ a, a ∈ f.required → (exec NI.sem f.prog o s).2.1.attrs a = (exec NI.sem f.prog o t).2.1.attrs a) :=
+  let r := refit_is_fresh_fit f.prog f.required (List.all_eq_true.mp all_fits_fresh f hf) o s t
+  ⟨r.1, r.2.2⟩
+
 /-! ### non-vacuity and sanity on hand-written skeletons -/
 
 /-- a lazily cached attribute (`if not hasattr(self, 'knn_'): self.knn_ = ...` in an observer) that
@@ -162,6 +183,11 @@ example : exitsGood (Fresh.goodAt [])
 /-- a conditional write under a data-dependent test does not count as a definite write -/
 example : exitsGood (Fresh.goodAt [0])
     (analyze Fresh.dom (.ite .nop (.atom (.wattr 0 [])) .skip) []) = false := by decide
+
+/-- two-run witness of the lazy-cache shape: from a state where attribute 1 holds 9 and from a fresh state,
+the (rejected) skeleton leaves different values in attribute 1 -/
+example : (exec NI.sem (.atom (.wattr 0 [])) [5] ⟨fun _ => 9⟩).2.1.attrs 1 ≠
+          (exec NI.sem (.atom (.wattr 0 [])) [5] ⟨fun _ => 0⟩).2.1.attrs 1 := by decide
 
 example : cases ≠ [] := by decide
 
